@@ -3,4 +3,5 @@ From Coq Require Import Extraction ExtrOcamlBasic ExtrOcamlString.
 From Cb Require Import C09.ConstPtr C09.Model.
 Extraction Language OCaml.
 Extraction "C09/c09_model.ml" step run trace spec mech all_but all_sites mech_chk mech_eff scenario witness verdict_of
-  all_kinds all_paths inv_b breaks.
+  all_kinds all_paths inv_b breaks
+  ref_chain alias_chain ptr_chain lists_upto ref_alpha ptr_alpha alias_finals all_proots proot_forms chain_expect mk_ptr.
